@@ -174,6 +174,29 @@ class SymRange:
         raise Unsupported("len(range(symbolic)) at the C level")
 
 
+def apply_array_facts(term):
+    """element facts of input arrays (e.g. 0 <= env[i] < E) for every select on them in term"""
+    c = Ctx.current
+    facts = getattr(c, "array_facts", None)
+    if not facts:
+        return
+    t = z3.simplify(term)
+    seen = set()
+    stack = [t]
+    while stack:
+        x = stack.pop()
+        if x.get_id() in seen:
+            continue
+        seen.add(x.get_id())
+        if z3.is_select(x) and x.arg(0).get_id() in facts:
+            key = ("af", x.get_id())
+            if key not in c.positive or c.scopes:
+                c.positive.add(key)
+                c.assume(facts[x.arg(0).get_id()](x))
+        if z3.is_app(x):
+            stack.extend(x.children())
+
+
 class SymArr(ndarray):
     """1-D array of symbolic length"""
 
@@ -189,6 +212,13 @@ class SymArr(ndarray):
         a = z3.Array(name, z3.IntSort(), zs)
         c.inputs[name] = a
         return SymArr(zint(n), a, sort)
+
+    def constrain(self, fact):
+        """register an element-wise fact of this (input) array: fact(z3 element) -> z3 Bool"""
+        c = ctx()
+        if not hasattr(c, "array_facts"):
+            c.array_facts = {}
+        c.array_facts[self.arr.get_id()] = fact
 
     def wrap(self, z):
         return SNpReal(z) if self.sort == "real" else SInt(z)
@@ -216,15 +246,22 @@ class SymArr(ndarray):
         if isinstance(i, slice):
             raise Unsupported("slice of a symbolic array")
         iz = self._index(i)
-        return self.wrap(z3.Select(self.arr, iz))
+        sel = z3.Select(self.arr, iz)
+        apply_array_facts(sel)
+        return self.wrap(sel)
 
     def __setitem__(self, i, v):
         iz = self._index(i)
+        if self.sort == "int" and isinstance(self, SymList) and not isinstance(v, (SInt, int, SBool)):
+            # a python list holds anything: promote the element sort
+            j = z3.Int(ctx().fresh("j"))
+            self.arr = z3.Lambda([j], z3.ToReal(z3.Select(self.arr, j)))
+            self.sort = "real"
         vz = zreal(v) if self.sort == "real" else zint(v)
         c = ctx()
         lp = getattr(c, "loop_stack", None)
         if lp:
-            lp[-1].note_store(self, iz, vz)
+            lp[-1].note_store(self, iz, vz, self.arr)
         self.arr = z3.Store(self.arr, iz, vz)
 
     def copy(self):
